@@ -12,7 +12,7 @@ def run(tier, only=None):
               "defs": ["-DBMAX=%d" % (24 if tier == "quick" else 48)]})
     return oschecks.run_queries(
         "C19", tier, q,
-        "file size 0..3 model pages (every size, so every size near each page multiple), arbitrary non-NUL contents (with or without final newline), file present or missing, plain or counting entry point with arbitrary chunk size, arbitrary result of the in-memory entry point; binary output: offset 0..BMAX, arbitrary buffer bytes",
+        "file size 0..3 model pages (every size, so every size near each page multiple), arbitrary non-NUL contents (with or without final newline), file present or missing, plain or counting entry point with arbitrary chunk size, arbitrary result of the in-memory entry point; binary output: offset 0..BMAX, arbitrary buffer bytes, output file with arbitrary previous contents of 0..60 bytes (fopen mode semantics: w truncates, a appends, r+ overwrites)",
         {"model_page_sizes": pages, "file_size_max_pages": 3,
          "outside": "files longer than 3 pages; the in-memory assembly itself (replaced by a recorder here: C01-C16 cover it)"},
         "one CBMC query per model page size: the text handed to the in-memory entry point is the file's contents, NUL-terminated inside the mapped pages; results and counts are passed through; a missing file yields EXIT_FAILURE; an empty file is the empty program",
